@@ -175,12 +175,12 @@ pub open spec fn decided(n: TreeG, o: TreeG, lsn: u64, seqno: u64) -> bool {
                 forall|j: int| it.index@ <= j < vals.len() ==> w.trees[(#[trigger] vals[j]).keyspace.id] == old(w).trees[vals[j].keyspace.id]
                     && (w.trees[vals[j].keyspace.id].mem_max is Some ==> w.trees[vals[j].keyspace.id].mem_max == Some(vals[j].lsn)),
                 // decided: either everything replayed was already in the tables and is gone again, or it is kept and the counter is above it
-                forall|j: int| 0 <= j < it.index@ ==> decided(w.trees[(#[trigger] vals[j]).keyspace.id], old(w).trees[vals[j].keyspace.id], vals[j].lsn, w.seqno), // [C11:counter-above-every-kept-sealed-memtable] [C02:rebuilt-memtable-kept-or-already-persisted]
+                forall|j: int| 0 <= j < it.index@ ==> decided(w.trees[(#[trigger] vals[j]).keyspace.id], old(w).trees[vals[j].keyspace.id], vals[j].lsn, w.seqno), // [C11:counter-above-every-kept-sealed-memtable] [C02:rebuilt-memtable-kept-or-already-persisted] [C03:rebuilt-memtable-kept-or-already-persisted] [C04:rebuilt-memtable-kept-or-already-persisted]
 //@proof before for wm in
         let ghost vals = watermarks.vals@;
 //@proof before shim_slice_end
     proof {
-        assert(forall|j: int| 0 <= j < vals.len() ==> decided(w.trees[(#[trigger] vals[j]).keyspace.id], old(w).trees[vals[j].keyspace.id], vals[j].lsn, w.seqno)); // [C11:counter-above-every-kept-sealed-memtable] [C02:rebuilt-memtable-kept-or-already-persisted]
+        assert(forall|j: int| 0 <= j < vals.len() ==> decided(w.trees[(#[trigger] vals[j]).keyspace.id], old(w).trees[vals[j].keyspace.id], vals[j].lsn, w.seqno)); // [C11:counter-above-every-kept-sealed-memtable] [C02:rebuilt-memtable-kept-or-already-persisted] [C03:rebuilt-memtable-kept-or-already-persisted] [C04:rebuilt-memtable-kept-or-already-persisted]
         // C10: the journal is handed back to the journal manager with exactly the watermarks collected from its records
         assert(w.queue == old(w).queue.push(QItemG { path: journal_path.id@, wms: wm_pairs(vals) })); // [C10:recovered-sealed-journal-requeued-with-its-watermarks] [C02:recovered-sealed-journal-requeued-with-its-watermarks]
     }
